@@ -8,7 +8,8 @@ FUNCS = ["transform.boyd_split", "transform.raising", "transform.root_attach", "
          "trees.children", "trees.terminals", "trees.postorder", "trees.preorder"]
 ASSUMPTIONS = ["head assignment = one symbolic head index per constituent (all exactly-one-head assignments); that the "
                "two head-marking transformations produce such assignments is property C15",
-               "all tree shapes E1(m, n) inside the bound"]
+               "all tree shapes E1(m, n) inside the bound; the tree is built through the Tree API or (selector via) written by the "
+               "harness encoder and delivered by the real export reader, which leaves its own bookkeeping on the nodes"]
 OUTSIDE = ["head assignments through edge labels (measured: does not finish, DESIGN.md §6 C05)", "larger trees"]
 
 
@@ -62,10 +63,30 @@ def _mark(nodes, kw, m):
     return headof
 
 
-def cont(m, n, ra, **kw):
+def _via_export(nodes):
+    """the same tree as the export reader delivers it (readers leave their own bookkeeping on the nodes, e.g. the
+    terminal-number lists of the export reader): written by the harness encoder, read by the real reader"""
+    from harness import stubs
+    from harness.formats import enc_export, spec_of_tree
+    from trees import treeinput
+    stubs.install()
+    stubs.put("c.export", enc_export([(1, spec_of_tree(nodes[0]))]))
+    got = [t for t in treeinput.export("c.export", "utf-8", quiet=True)]
+    if len(got) != 1:
+        raise ValueError("export reader yields %d trees for one sentence" % len(got))
+    bylabel = dict((x.data['label'], x) for x in all_nodes(got[0]) if x.children)
+    new = [bylabel[nd.data['label']] for nd in nodes]
+    if new[0] is not got[0] or spec_of_tree(got[0]) != spec_of_tree(nodes[0]):
+        raise ValueError("export reader does not deliver the tree that was written")
+    return new
+
+
+def cont(m, n, ra, via=False, **kw):
     """boyd_split + raising (optionally after root_attach) = reference continuification"""
     ip, lp = e1_get(kw, m, n)
     nodes, leaves = build_e1(m, n, ip, lp)
+    if via:
+        nodes = _via_export(nodes)
     root = nodes[0]
     if ra:
         root = transform.root_attach(root)
@@ -152,8 +173,8 @@ def conds(tier):
             sh += ["lp3"]
         if m * n >= 20:
             sh += ["ip2", "ip3"]
-        cs.append(Cond("cont-m%d-n%d" % (m, n), "harness.c05:cont", e1_params(m, n) + [P("ra", "bool")] + _hparams(m, n),
-                       fixed={"m": m, "n": n}, pre=[e1_wf_expr(m, n), "_h.heads_ok(%d, %d, [%s], [%s], [%s])" % (
+        cs.append(Cond("cont-m%d-n%d" % (m, n), "harness.c05:cont", e1_params(m, n) + [P("ra", "bool"), P("via", "bool")] + _hparams(m, n),
+                       fixed={"m": m, "n": n}, pre=[e1_wf_expr(m, n), "via == (lp1 + h0) % 2" if m * n >= 12 else "True", "_h.heads_ok(%d, %d, [%s], [%s], [%s])" % (
                            m, n, ", ".join("ip%d" % i for i in range(1, m)), ", ".join("lp%d" % j for j in range(1, n + 1)),
                            ", ".join("h%d" % i for i in range(m)))],
                        shard=sh, timeout=600 if q else 3000, functions=FUNCS))
